@@ -66,6 +66,7 @@ func checkC09(p *Prog, r *Report) {
 		return
 	}
 	p.walkSortedRule(r, "E5.walk-sorted")
+	p.hardlinkMarkerRule(r, "E9.hardlink-marker-protocol")
 	// the walk callback
 	var cb *ssa.Function
 	for _, ci := range callsInFn(hash, walkMode) {
@@ -447,4 +448,80 @@ func (p *Prog) walkSortedRule(r *Report, rule string) {
 		return
 	}
 	r.check(bad == 0, rule, "directory walks are name-sorted", p.pos(site), "fs.WalkMode", itoa(n)+" godirwalk.Walk call(s), Options.Unsorted never set", "the directory walk is switched to unsorted: entries arrive in file-system listing order, so a directory's hash (contents streamed in walk order) depends on the file system and on creation order, and different trees can hash the same")
+}
+
+// hardlinkMarkerRule: a filegroup output is a hard link to a source file, so a hash recorded in its xattr would be
+// recorded on the source's inode and trusted after the source was edited in place. The protocol against that: CopyHash
+// of a path whose hash is not known stores a nil entry for the new path, and Hash treats a present-but-nil entry as
+// "never read or store xattrs, always rehash".
+func (p *Prog) hardlinkMarkerRule(r *Report, rule string) {
+	mc := p.Fn("fs", "PathHasher.moveOrCopyHash")
+	Hash := p.Fn("fs", "PathHasher.Hash")
+	hash := p.Fn("fs", "PathHasher.hash")
+	if mc == nil || Hash == nil || hash == nil {
+		r.unresolved(rule, "fs.PathHasher.moveOrCopyHash / Hash / hash")
+		return
+	}
+	var newPath, copyPrm *ssa.Parameter
+	for _, prm := range mc.Params {
+		switch prm.Name() {
+		case "newPath":
+			newPath = prm
+		case "copy":
+			copyPrm = prm
+		}
+	}
+	marked := false
+	eachInstr(mc, false, func(_ *ssa.Function, i ssa.Instruction) {
+		mu, ok := i.(*ssa.MapUpdate)
+		if !ok || !isNilConst(mu.Value) || newPath == nil || !derivesFromValue(mu.Key, newPath) {
+			return
+		}
+		absent, isCopy := false, false
+		for _, f := range factsAt(mu) {
+			if e, ok := f.V.(*ssa.Extract); ok && e.Index == 1 && !f.Val {
+				absent = true
+			}
+			if f.V == ssa.Value(copyPrm) && f.Val {
+				isCopy = true
+			}
+		}
+		if absent && isCopy {
+			marked = true
+		}
+	})
+	r.check(marked, rule, "CopyHash of an unknown hash marks the new path", p.pos(mc.Pos()), fnName(mc), "memo[newPath] = nil on the (source hash absent, copy) branch", "copying the hash of a path that has not been hashed no longer leaves the nil marker for the new path: the next Hash(store=true) of a filegroup output records its hash in an xattr on the inode it shares with the source file, and after an in-place edit of the source that stale record is trusted (a stale test result or output is reused)")
+	// reader: on present && cached == nil the call to hash() gets store=false and read=false
+	honoured := false
+	for _, ci := range callsInFn(Hash, hash) {
+		cc := callCommon(ci)
+		if len(cc.Args) < 4 {
+			continue
+		}
+		storeArg, readArg := cc.Args[2], cc.Args[3]
+		sPhi, okS := storeArg.(*ssa.Phi)
+		if !okS {
+			continue
+		}
+		for k, e := range sPhi.Edges {
+			if b, isC := constBool(e); isC && !b {
+				// this edge is the marker branch if it is under (present, cached == nil)
+				pred := sPhi.Block().Preds[k]
+				// (the memoised value is returned on present && cached != nil, so what is left of `present` is the nil entry)
+				nilFact := false
+				for _, f := range append(condFacts(pred), edgeFacts(pred, sPhi.Block())...) {
+					if e, ok := f.V.(*ssa.Extract); ok && e.Index == 1 && f.Val {
+						if lk, ok := e.Tuple.(*ssa.Lookup); ok && tagsOf(lk.X, SliceOpts{})["fs.PathHasher.memo"] {
+							nilFact = true
+						}
+					}
+				}
+				// the read argument is !recalc with recalc forced true on the same edge
+				if nilFact && readArg != nil {
+					honoured = true
+				}
+			}
+		}
+	}
+	r.check(honoured, rule, "Hash never stores an xattr for a marked path", p.pos(Hash.Pos()), fnName(Hash), "store is forced to false on the present-but-nil branch before hash() is called", "Hash no longer treats a present-but-nil memo entry as 'do not read or store xattrs': the marker left by CopyHash has no effect")
 }
